@@ -223,12 +223,13 @@ def run_c10(ctx):
             events.append(ev2)
     # ---- the real start-up path: runMain() finds the debris of a crashed run
     import fam_e2e
-    try:
-        left, pre = fam_e2e.c10_startup(ctx, binp)
-        events.append(dict(ev="killrun", scenario=-3, ops="runMain start-up with leftover " + ",".join(pre), point=-1, calls_done=-1,
-                           last_call=None, before=[], after=left, startup=True))
-    except fam_e2e.DaemonCrash as dc:
-        ctx.notes.append("runMain crashed in the start-up clean-up scenario: " + dc.msg[-300:])
+    for const in (False, True):
+        try:
+            left, pre = fam_e2e.c10_startup(ctx, binp, const=const)
+            events.append(dict(ev="killrun", scenario=-3, ops="runMain start-up (constant-recorder %s) with leftover %s" % (const, ",".join(pre)),
+                               point=-1, calls_done=-1, last_call=None, before=[], after=left, startup=True))
+        except fam_e2e.DaemonCrash as dc:
+            ctx.notes.append("runMain crashed in the start-up clean-up scenario: " + dc.msg[-300:])
     # ---- concurrent observer
     obs_out = ctx.path("run", "observer.ndjson")
     r = t("TestVerifObserver", dict(VERIF_OUT=obs_out, VERIF_N=str(40 if tier == "quick" else 400)), timeout=600)
